@@ -18,6 +18,8 @@ SYN = [
     "pack:3 [numa] die:2 core:2 pu:1",
     "pack:1 core:1 pu:1",
     "pack:2 [numa] core:3 pu:2(indexes=3,1,5,0,2,4,9,7,11,6,8,10)",
+    "group:2 group:2 pu:2",
+    "pack:2 [numa] group:2 group:2 pu:2",
 ]
 
 NAMES = ["alpha", "beta", "x", "CPUModel", "a%25b"]
@@ -39,7 +41,7 @@ def gen_op(rng, misc_ok=True, heavy=True):
     if r < 0.36:
         return "gobj %d %d %d" % (rng.choice([TPU, TCORE]), 0, rng.randint(1, 2))
     if r < 0.48:
-        return "distadd %d %d %d %d %d" % (rng.choice([TPU, TNUMA, TCORE, TPACK]), rng.choice([2, 2, 3, 4, 8]), rng.choice([5, 6, 9, 10]),
+        return "distadd %d %d %d %d %d" % (rng.choice([TPU, TNUMA, TCORE, TPACK, 1, 2, 3]), rng.choice([2, 2, 3, 4, 8]), rng.choice([5, 6, 9, 10]),
                                            rng.choice([0, 0, 0, 1, 3]), rng.randint(0, 50))
     if r < 0.50:
         # heterogeneous matrix: PU and NUMA members (identified by os_index in homogeneous matrices) mixed with others
@@ -56,7 +58,7 @@ def gen_op(rng, misc_ok=True, heavy=True):
     if r < 0.68:
         return "mset %d %d - %d" % (rng.choice([8, 8, 9, 0, 1]), rng.randint(0, 2), rng.randint(1, 1000))
     if r < 0.72:
-        return "mseti %d %d %d %d %d" % (rng.choice([2, 5, 8, 9, 10]), rng.randint(0, 2), rng.choice([TPU, TCORE, TPACK, TPACK]), rng.randint(0, 2), rng.randint(1, 1000))
+        return "mseti %d %d %d %d %d" % (rng.choice([2, 5, 8, 9, 10]), rng.randint(0, 2), rng.choice([TPU, TCORE, TPACK, TPACK, 1, 2, 3]), rng.randint(0, 3), rng.randint(1, 1000))
     if r < 0.76:
         return "mseto %d %d %d %d %d" % (rng.choice([2, 5, 8, 9, 10]), rng.randint(0, 2), rng.choice([TPU, TCORE, TPACK, 0]), rng.randint(0, 2), rng.randint(1, 1000))
     if r < 0.84:
@@ -279,6 +281,13 @@ def boundary_cases():
             ("b:memattr-all-targets-removed", [two_numa], ["pre mreg foo 1", "pre mset 8 1 - 20", "pre robj 1014 0 24", "pre refresh", "dup"] + d),
             ("b:memattr-all-initiators-removed", [two_numa], ["pre mseto 2 0 1001 1 300", "pre mseto 2 1 1001 1 400", "pre robj 1001 0 0", "pre refresh", "dup"] + d),
             ("b:cpukinds", ["src synthetic core:4 pu:2"], ["pre kobj 1003 0 1 k a", "pre kobj 1003 1 2 k b", "pre kobj 1003 2 2 k c", "dup", "mut A kobj 1003 3 5 k d", "mut B robj 1003 0 0"] + d),
+            # Groups on two levels, the inner one directly above the PUs (a multi-depth type): distances over the inner Groups, memattr values with
+            # Group OBJECT initiators of both levels, a heterogeneous matrix mixing both Group levels and a PU
+            ("b:inner-groups-distances+memattr", ["src synthetic group:2 group:2 pu:2"], ["pre distadd 2 4 5 0 1", "pre distadd 1 2 6 0 2", "pre mseti 2 0 2 1 300", "pre mseti 2 0 2 3 100",
+                                                                                         "pre mseti 2 0 1 0 200", "pre disthet 2:0,1:1,1004:3,2:2 6 3", "dup", "mut A mseti 2 0 2 0 50"] + d),
+            ("b:inner-groups-below-packages", ["src synthetic pack:2 [numa(memory=1024)] group:2 group:2 pu:2"], ["pre distadd 3 8 5 0 1", "pre mseti 2 0 3 1 300", "pre mseti 2 1 3 6 100", "pre mseti 5 1 2 3 9",
+                                                                                                                "pre mreg hwvlat 6", "pre mseti 8 0 3 2 7", "dup", "mut B distrm"] + d),
+            ("b:inner-groups-three-levels", ["src synthetic group:2 group:2 group:3 pu:1"], ["pre distadd 3 12 5 0 1", "pre distadd 2 4 9 0 2", "pre mseti 2 0 3 11 300", "pre mseti 2 0 2 2 30", "dup"] + d),
             # a restrict that leaves ONE kind, not the least efficient one: its efficiency must be re-ranked on the original as on the copy
             ("b:cpukinds-one-survivor-high", ["src synthetic pu:8"], ["pre kobj 1004 0 10 k a", "pre kobj 1004 1 10 k a", "pre kobj 1004 4 20 k b", "pre kobj 1004 5 20 k b", "pre robj 1004 4 0", "dup"] + d),
             ("b:cpukinds-one-survivor-of-three", ["src synthetic core:4 pu:2"], ["pre kobj 1003 0 1 k a", "pre kobj 1003 1 5 k b", "pre kobj 1003 2 9 k c", "pre robj 1003 2 0", "dup", "mut A kobj 1004 0 3 k d"] + d),
